@@ -1,6 +1,7 @@
 import AlgoVerif.Model.C08
 import AlgoVerif.Model.C08Aux
 import AlgoVerif.Model.C08Hist
+import AlgoVerif.Model.NameCodec
 import AlgoVerif.Model.C10Ext
 import AlgoVerif.Spec.C08
 /-!
@@ -29,11 +30,12 @@ A case is the grammar description (`terms …`, `nonterms …`, `start S`, `prod
 A case whose header says `comp=history` is a history over grammar objects (`Model/C08Hist.lean`): the described grammar is
 the value of slot 0 and the ops are `apply i T j` (T a transformation or `clone`; `ok <grammar>` | `panic` | `hang`),
 `addprod i H : α`, `rmprod i H : α`, `addnt i N`, `addterm i t` (each `ok <grammar of slot i>`), `nullable i` → `ok [A B]`,
+`nullable! i` / `terms! i` (the caller overwrites the set / slice it was handed), `iterate i` → `ok prods=n pairs=m²`,
 `analyse i` → `ok nullable=[A B]` | `ok not-valid`, `prods i`, `lang i k`, `eq i j`; an op on an empty slot answers
 `ok undefined`; after a `panic` / `hang` the rest of the case is answered `skip`.
 -/
 namespace AlgoVerif.C08.Driver
-open AlgoVerif AlgoVerif.Gram AlgoVerif.C08
+open AlgoVerif AlgoVerif.Gram AlgoVerif.C08 AlgoVerif.NameCodec
 
 /-! Terminals named like non-terminals.  The shared protocol tells body words apart by name; in C08/C09 case
 files a word that starts with `'` is the terminal named by the rest of the word.  `unquote` gives the Model the
@@ -42,34 +44,42 @@ terminals whose name is a declared non-terminal of that grammar (the harness pri
 
 def bare (t : String) : String :=
   match t.toList with
-  | '\'' :: r => String.ofList r
-  | _ => t
+  | '\'' :: r => decName (String.ofList r)
+  | _ => decName t
 
 /-- `^Z` is the non-terminal `Z`, declared or not; `'x` the terminal `x` -/
 def bareSym (t : String) : SSym :=
   match t.toList with
-  | '^' :: r => .nonterm (String.ofList r)
+  | '^' :: r => .nonterm (decName (String.ofList r))
   | _ => .term (bare t)
 
-def unquote (g : G) : G :=
-  { g with terms := g.terms.map bare,
-           prods := g.prods.map fun p => { p with body := p.body.map fun s => match s with
-             | .term t => bareSym t
-             | .nonterm n => .nonterm n } }
+/-- the non-terminal a word (with or without `^`) names -/
+def bareN (w : String) : String :=
+  match w.toList with
+  | '^' :: r => decName (String.ofList r)
+  | _ => decName w
 
+/-- words → names (`Model/NameCodec.lean`): the Model runs on the names the Go code sees -/
+def unquote (g : G) : G :=
+  { terms := g.terms.map bare, nonterms := g.nonterms.map bareN, start := bareN g.start,
+    prods := g.prods.map fun p => { head := bareN p.head, body := p.body.map fun s => match s with
+      | .term t => bareSym t
+      | .nonterm n => .nonterm (decName n) } }
+
+/-- names → canonical words: encoded, a terminal with `'` exactly when its name is a declared non-terminal -/
 def requote (g : G) : G :=
-  let q := fun (t : String) => if g.nonterms.contains t then "'" ++ t else t
-  { g with terms := g.terms.map q,
-           prods := g.prods.map fun p => { p with body := p.body.map fun s => match s with
-             | .term t => .term (q t)
-             | .nonterm n => .nonterm n } }
+  let q := fun (t : String) => if g.nonterms.contains t then "'" ++ encName t else encName t
+  { terms := g.terms.map q, nonterms := g.nonterms.map encName, start := encName g.start,
+    prods := g.prods.map fun p => { head := encName p.head, body := p.body.map fun s => match s with
+      | .term t => .term (q t)
+      | .nonterm n => .nonterm (encName n) } }
 
 def showOutcome : Outcome G → String
   | .ok g => "ok " ++ showGrammar (requote g)
   | .panic => "panic"
   | .diverge => "hang"
 
-def showSentence (w : List String) : String := if w.isEmpty then "ε" else " ".intercalate w
+def showSentence (w : List String) : String := if w.isEmpty then "ε" else " ".intercalate (w.map encName)
 
 def showLang (g : G) (k : Nat) : String :=
   let ws := sortDedup ((langK g k).map showSentence)
@@ -80,9 +90,9 @@ def showLang (g : G) (k : Nat) : String :=
 /-- a word of an op argument as a symbol of `g` (bare names) -/
 def argSym (g : G) (w : String) : SSym :=
   match w.toList with
-  | '\'' :: r => .term (String.ofList r)
-  | '^' :: r => .nonterm (String.ofList r)
-  | _ => if g.nonterms.contains w then .nonterm w else .term w
+  | '\'' :: r => .term (decName (String.ofList r))
+  | '^' :: r => .nonterm (decName (String.ofList r))
+  | _ => if g.nonterms.contains (decName w) then .nonterm (decName w) else .term (decName w)
 
 /-- split at the first `|` -/
 def splitBar (ws : List String) : List String × List String :=
@@ -92,17 +102,17 @@ def splitBar (ws : List String) : List String × List String :=
 declared non-terminal -/
 def tname (g : G) (t : String) : String :=
   if t = Generated.grammar_endmarkerName then "$"   -- `Terminal.Name()` of the reserved endmarker
-  else if g.nonterms.contains t then "'" ++ t else t
+  else if g.nonterms.contains t then "'" ++ encName t else encName t
 
 def showSymQ (g : G) : SSym → String
   | .term t => tname g t
-  | .nonterm n => n
+  | .nonterm n => encName n
 
 def showBodyQ (g : G) (b : List SSym) : String :=
   if b.isEmpty then "ε" else " ".intercalate (b.map (showSymQ g))
 
 def showProdQ (g : G) (p : SProd) : String :=
-  p.head ++ "→" ++ (if p.body.isEmpty then "ε" else " ".intercalate (p.body.map (showSymQ g)))
+  encName p.head ++ "→" ++ (if p.body.isEmpty then "ε" else " ".intercalate (p.body.map (showSymQ g)))
 
 def insertKeep (x : String) : List String → List String
   | [] => [x]
@@ -226,7 +236,7 @@ def runWith (extra : G → List String → Option String) (ops : List String) : 
 
 /-! ### histories over grammar objects (`comp=history`) -/
 
-def showNames (ns : List String) : String := "[" ++ " ".intercalate (sortDedup ns) ++ "]"
+def showNames (ns : List String) : String := "[" ++ " ".intercalate (sortDedup (ns.map encName)) ++ "]"
 
 def showValue (g : G) : String := "ok " ++ showGrammar (requote g)
 
@@ -264,12 +274,17 @@ def histOp (s : Hist.Store) (ws : List String) : Option (String × Hist.Store) :
         | some o => some (showOutcome o, s)
     | _, _ => none
   | "addprod" :: i :: h :: ":" :: body =>
-    histEdit s i fun g => Hist.addProd g ⟨h, body.map (argSym g)⟩
+    histEdit s i fun g => Hist.addProd g ⟨decName h, body.map (argSym g)⟩
   | "rmprod" :: i :: h :: ":" :: body =>
-    histEdit s i fun g => Hist.rmProd g ⟨h, body.map (argSym g)⟩
-  | ["addnt", i, n] => histEdit s i fun g => Hist.addNT g n
+    histEdit s i fun g => Hist.rmProd g ⟨decName h, body.map (argSym g)⟩
+  | ["addnt", i, n] => histEdit s i fun g => Hist.addNT g (bare n)
   | ["addterm", i, t] => histEdit s i fun g => Hist.addTerm g (bare t)
   | ["nullable", i] => histQuery s i (showNullable "ok ")
+  -- the caller scribbles on the set / slice it got: a value cannot be reached that way
+  | ["nullable!", i] => histQuery s i (showNullable "ok ")
+  | ["terms!", i] => histQuery s i fun g => "ok [" ++ " ".intercalate ((orderT g).map (tname g)) ++ "]"
+  -- two iterators alive at once, one abandoned half-way, an iteration nested in itself
+  | ["iterate", i] => histQuery s i fun g => s!"ok prods={(dedup g.prods).length} pairs={(dedup g.nonterms).length * (dedup g.nonterms).length}"
   | ["analyse", i] =>
     histQuery s i fun g => if decide (Spec.Valid g) then showNullable "ok nullable=" g else "ok not-valid"
   | ["prods", i] => histQuery s i showValue
